@@ -485,3 +485,65 @@ func (w *vhBuf) Write(p []byte) (int, error) {
 	w.b = append(w.b, p...)
 	return len(p), nil
 }
+
+// vmJSONMarshalASCII: encoding/json's encoding of a string of ASCII bytes, written out (quotes, backslash, the
+// short escapes \n \r \t, \u00XX for the other control bytes, and the HTML-safe forms of < > &); used where the
+// subject is how string VALUES travel through JSON replies. Anything else keeps the marker of vmJSONMarshal.
+//verif:replace[c17s] encoding/json.Marshal => vmJSONMarshalASCII
+func vmJSONMarshalASCII(v interface{}) ([]byte, error) {
+	str, ok := v.(string)
+	if !ok {
+		return vmJSONMarshal(v)
+	}
+	const hex = "0123456789abcdef"
+	b := []byte{'"'}
+	for i := 0; i < len(str); i++ {
+		c := str[i]
+		switch {
+		case c >= 0x80:
+			return []byte(`"\u0000"`), nil
+		case c == '"':
+			b = append(b, '\\', '"')
+		case c == '\\':
+			b = append(b, '\\', '\\')
+		case c == '\n':
+			b = append(b, '\\', 'n')
+		case c == '\r':
+			b = append(b, '\\', 'r')
+		case c == '\t':
+			b = append(b, '\\', 't')
+		case c < 0x20 || c == '<' || c == '>' || c == '&':
+			b = append(b, '\\', 'u', '0', '0', hex[c>>4], hex[c&0xf])
+		default:
+			b = append(b, c)
+		}
+	}
+	return append(b, '"'), nil
+}
+
+// VH_C17_string_values: a STRING object whose value holds any two ASCII bytes (quotes, backslashes, control bytes
+// included) reads back through GET / SCAN / SEARCH in JSON mode as one valid JSON document whose "object" member
+// decodes to exactly the value RESP mode returns.
+//verif:cfg use=c17s b_value=1_fixed+2_symbolic_ASCII_bytes b_commands=GET|SCAN|SEARCH|SET_RETURN_OBJECT ignorego=1
+func VH_C17_string_values() {
+	s := vhServer()
+	s.loadedAndReady.Store(true)
+	tail := vnondetStringN(2)
+	vassume(tail[0] < 0x80 && tail[1] < 0x80)
+	val := "a" + tail
+	_, _, err := vhDo(s, "SET", "k", "id", "STRING", val)
+	vassert("C17.V.set_ok", err == nil)
+	r, _, _ := vhDo(s, "GET", "k", "id")
+	vassert("C17.V.resp_value_is_the_value", r.String() == val)
+	cmds := [][]string{{"GET", "k", "id"}, {"SCAN", "k"}, {"SEARCH", "k"}}
+	paths := [3]string{"object", "objects.0.object", "objects.0.object"}
+	i := vchoose(3)
+	// the JSON document as the handler returns it (the transport framing is VH_C17_transports' subject)
+	res, _, herr := s.command(&Message{Args: cmds[i], ConnType: RESP, OutputType: JSON}, &Client{})
+	vassert("C17.V.no_error", herr == nil)
+	body := res.String()
+	vassert("C17.V.reply_is_valid_json", gjson.Valid(body))
+	got := gjson.Get(body, paths[i])
+	vassert("C17.V.json_object_decodes_to_the_resp_value", got.Type == gjson.String && got.String() == val)
+	vobs("strval", i, len(body))
+}
